@@ -26,7 +26,7 @@
    of the current chain), index_store_agree, reopen_reproduces for clean shutdowns (equality of
    the rebuilt index) and minimality of the evicted account for a freshly built heap are
    checked by correspondence and the Go oracle only. *)
-From GV Require Import Lib.Tactics Pool.Blob Pool.BlobProofs Pool.BlobAddProofs Pool.BlobResetProofs Pool.BlobInitProofs Pool.BlobLimboProofs Pool.BlobLimboReset Pool.BlobWitness Pool.BlobWitness2.
+From GV Require Import Lib.Tactics Pool.Blob Pool.BlobProofs Pool.BlobAddProofs Pool.BlobResetProofs Pool.BlobInitProofs Pool.BlobLimboProofs Pool.BlobLimboReset Pool.BlobRollingProofs Pool.BlobRollingTip Pool.BlobRollingWitness Pool.BlobWitness Pool.BlobWitness2.
 Local Open Scope N_scope.
 
 (* blob_contiguous, list level: whatever recheck's threshold loop keeps has consecutive nonces
@@ -80,6 +80,35 @@ Print Assumptions C42_replacement_requires_bump.
 Theorem C42_eviction_fields_rolling : forall o l, rolling o (reev o l 0).
 Proof. exact reev_rolling. Qed.
 Print Assumptions C42_eviction_fields_rolling.
+
+(* ... and that is what addLocked leaves behind after a replacement at ANY position or an append:
+   untouched prefix, recomputation from the replaced index to the tail (a recomputation that
+   stops before the tail does not satisfy this) *)
+Theorem C42_add_recompute_gives_prefix_minima : forall (l1 : list meta) off,
+  (off <= length l1)%nat -> rolling None (firstn off l1) ->
+  rolling None (firstn off l1 ++ reev (match off with O => None | S o => nth_error l1 o end) (skipn off l1) 0).
+Proof. exact rebuilt_rolling. Qed.
+Print Assumptions C42_add_recompute_gives_prefix_minima.
+
+(* over every history of Add (extension, replacement anywhere, gapped promotion, eviction) and
+   SetGasTip, from the empty pool on: the three eviction fields of every pooled transaction are
+   the minima over the prefix of its account's list *)
+Theorem C42_eviction_fields_prefix_minima_through_histories : forall prioE prioB gtE gtB c ops p q,
+  RInv p -> hrun prioE prioB gtE gtB c ops p = Ok q -> RInv q.
+Proof. exact hrun_rinv. Qed.
+Print Assumptions C42_eviction_fields_prefix_minima_through_histories.
+
+(* the recomputation must reach the tail: a variant that stops at the first transaction whose tip
+   and exec-fee minima did not change leaves a stale blob-fee minimum two positions after a
+   replaced blob-fee bottleneck, while the full recomputation of the same list is correct *)
+Theorem C42_early_exit_recompute_refuted :
+  ~ rolling None (reev_early true None early_in) /\ rolling None (reev None early_in 0).
+Proof. exact early_exit_refuted. Qed.
+Print Assumptions C42_early_exit_recompute_refuted.
+
+Theorem C42_prefix_minima_of_empty_pool : forall p, p_index p = [] -> RInv p.
+Proof. exact rinv_empty. Qed.
+Print Assumptions C42_prefix_minima_of_empty_pool.
 
 (* SetGasTip keeps exactly the prefix before the first underpriced transaction *)
 Theorem C42_tip_split : forall tip l keep dropped,
